@@ -83,7 +83,13 @@ func (d *Data) corrupted() (text string, offending int, eof bool) {
 	case "truncate":
 		return t[:c.Pos], c.Pos, true
 	default:
-		return t[:c.Pos] + c.Bytes + t[c.Pos:], c.Pos + c.Off, false
+		text, off := t[:c.Pos]+c.Bytes+t[c.Pos:], c.Pos+c.Off
+		if d.Transport == "module" {
+			// the query is the body of a definition in a module file
+			const pre = "def f: "
+			return pre + text + ";\n", off + len(pre), false
+		}
+		return text, off, false
 	}
 }
 
@@ -197,6 +203,18 @@ func (d *Data) run() (result, string) {
 		return runCLI(nil, simio.ReadPlan{}, []string{"-n", "--slurpfile", "v", f, "$v|length"}), f
 	case "argjson":
 		return runCLI(nil, simio.ReadPlan{}, []string{"-n", "--argjson", "v", text, "$v"}), "$v"
+	case "datamodule":
+		dir := filepath.Join(scratch(), "mods")
+		os.MkdirAll(dir, 0o755)
+		f := filepath.Join(dir, "d.json")
+		os.WriteFile(f, []byte(text), 0o644)
+		return runCLI(nil, simio.ReadPlan{}, []string{"-n", "-L", dir, `import "d" as $d; $d | length`}), f
+	case "module":
+		dir := filepath.Join(scratch(), "mods")
+		os.MkdirAll(dir, 0o755)
+		f := filepath.Join(dir, "m.jq")
+		os.WriteFile(f, []byte(text), 0o644)
+		return runCLI([]byte("null"), simio.ReadPlan{}, []string{"-L", dir, `import "m" as m; m::f`}), f
 	case "arg":
 		return runCLI([]byte("null"), simio.ReadPlan{}, []string{text}), "<arg>"
 	case "fromfile":
@@ -435,7 +453,7 @@ func genTextSpec(r *kernel.Rand, large bool) TextSpec {
 	return s
 }
 
-var jsonTransports = []string{"pipe", "pipe", "pipe", "seek", "file", "file-after-stdin", "stream-pipe", "slurp-pipe", "slurpfile"}
+var jsonTransports = []string{"pipe", "pipe", "pipe", "seek", "file", "file-after-stdin", "stream-pipe", "slurp-pipe", "slurpfile", "datamodule"}
 
 // corruptionAt builds the corruption for an insertion before byte p.
 func corruptionAt(r *kernel.Rand, text string, inside, boundary []bool, p int) (Corruption, bool) {
@@ -603,7 +621,10 @@ func (Prop) RunUnit(env *kernel.Env, unit int) {
 			}
 			for _, p := range q.boundaries() {
 				c := q.corruptionAt(r, p)
-				for _, tp := range []string{"arg", "fromfile"} {
+				for _, tp := range []string{"arg", "fromfile", "module"} {
+					if tp == "module" && !q.TokenFault {
+						continue // an unterminated string would swallow the rest of the module
+					}
 					qq := q
 					d := &Data{Format: "query", Query: &qq, Corrupt: c, Transport: tp}
 					if !try(d) {
